@@ -700,17 +700,24 @@ def one_view(signac, _make_path_function, root, pdir, live, step, desc, si):
                 res = ("Ok", [[k, v] for k, v in r.items()])
             except Exception as e:   # noqa: BLE001
                 res = ("Err", exn_class(e))
-        base = pref + os.sep
+        # the system calls name the view by its physical location (or, before that repair, as spelled)
+        bases = [os.path.realpath(pref) + os.sep, pref + os.sep]
+
+        def below(x):
+            for b in bases:
+                if x.startswith(b):
+                    return x[len(b):]
+            return None
         hint = []
         for a in tr.attempts:
             if isinstance(a, tuple):
                 # a directory made for some link: tie-break hint = the wanted keys below it (a failing mkdir is the
                 # only trace of which link was being made); the model only uses hint entries that are keys
-                q = a[1][len(base):] if a[1].startswith(base) else None
+                q = below(a[1])
                 if q:
                     hint.extend(k for k in cand_keys if k.startswith(q + os.sep) and k not in hint)
             else:
-                hint.append(a[len(base):] if a.startswith(base) else a)
+                hint.append(a if below(a) is None else below(a))
         escaped[0] = escaped[0] or tr.escaped
         return res, hint, tr.ops
 
